@@ -29,6 +29,8 @@ from .. import common as C
 from . import _an
 
 PROP = "C13"
+# obligations of the properties this one is downstream of are obligations of this check too (vk.runner.collect_obligations)
+UPSTREAM = ["C05"]
 GEN_REGIONS = ["Ctor", "Attrs", "KernelHeap", "ResultQueries"]
 THEOREMS = {
     # compute() zero-fills non-finite statistics: over strict partial reals every stored XX, YY, XY, S12, S2, M2 is finite (translated each run)
